@@ -15,7 +15,12 @@ Import ListNotations.
 
 Inductive item : Type :=
 | Stmt (tag : nat)        (* any statement other than include: appended unchanged *)
-| Inc (target : nat).     (* include "<target>"; *)
+| Inc (target : nat)      (* include "<target>"; *)
+| Blk (body : list item). (* a statement with a nested block (if / switch / { }): the includes inside are
+                             expanded only when that block is linted (lintBlockStatement); since commit "fix: a
+                             statement-level module that includes itself inside a nested block ..." this happens
+                             under the include stack of the module the statement was taken from, which is what
+                             the model does by expanding the block in place under the current stack *)
 
 Inductive modfile : Type :=
 | Missing                  (* Resolve returns an error: no such file in any include path *)
@@ -33,44 +38,52 @@ Inductive ev : Type :=
 
 Definition memn (x : nat) (l : list nat) : bool := existsb (Nat.eqb x) l.
 
+(* the statements of one list, in order *)
+Definition seq_items (goi : item -> res (list ev)) : list item -> res (list ev) :=
+  fix gol (l : list item) : res (list ev) :=
+    match l with
+    | [] => OK []
+    | x :: r => do a <- goi x; do c <- gol r; OK (a ++ c)
+    end.
+
 (* the repaired expansion: [stack] = l.includeStack *)
 Fixpoint resolve (fuel : nat) (g : modgraph) (stack : list nat) (items : list item) {struct fuel}
   : res (list ev) :=
   match fuel with
   | O => OutOfFuel
   | S f =>
-    (fix go (items : list item) : res (list ev) :=
-       match items with
-       | [] => OK []
-       | Stmt t :: r => do rest <- go r; OK (EStmt t :: rest)
-       | Inc m :: r =>
-         do here <- match g m with
-                    | Missing => OK [EMissing m]
-                    | Broken => if memn m stack then OK [ECycle m] else OK [EFatal m]
-                    | Loaded b => if memn m stack then OK [ECycle m] else resolve f g (m :: stack) b
-                    end;
-         do rest <- go r; OK (here ++ rest)
-       end) items
+    seq_items
+      (fix goi (it : item) : res (list ev) :=
+         match it with
+         | Stmt t => OK [EStmt t]
+         | Inc m =>
+           match g m with
+           | Missing => OK [EMissing m]
+           | Broken => if memn m stack then OK [ECycle m] else OK [EFatal m]
+           | Loaded b => if memn m stack then OK [ECycle m] else resolve f g (m :: stack) b
+           end
+         | Blk b => seq_items goi b
+         end) items
   end.
 
-(* the code before the repair: no stack *)
+(* the code before the repairs: no stack *)
 Fixpoint resolve_unrepaired (fuel : nat) (g : modgraph) (items : list item) {struct fuel}
   : res (list ev) :=
   match fuel with
   | O => OutOfFuel
   | S f =>
-    (fix go (items : list item) : res (list ev) :=
-       match items with
-       | [] => OK []
-       | Stmt t :: r => do rest <- go r; OK (EStmt t :: rest)
-       | Inc m :: r =>
-         do here <- match g m with
-                    | Missing => OK [EMissing m]
-                    | Broken => OK [EFatal m]
-                    | Loaded b => resolve_unrepaired f g b
-                    end;
-         do rest <- go r; OK (here ++ rest)
-       end) items
+    seq_items
+      (fix goi (it : item) : res (list ev) :=
+         match it with
+         | Stmt t => OK [EStmt t]
+         | Inc m =>
+           match g m with
+           | Missing => OK [EMissing m]
+           | Broken => OK [EFatal m]
+           | Loaded b => resolve_unrepaired f g b
+           end
+         | Blk b => seq_items goi b
+         end) items
   end.
 
 (* a module graph given as a finite table (what the harness sends); absent = Missing *)
